@@ -173,6 +173,12 @@ def run(ctx, prop):
     procs = min(16, int(os.environ.get("VERIF_PROCS", "16")))
     workers = min(16, int(os.environ.get("VERIF_TLC_WORKERS", os.environ.get("VERIF_PROCS", "16"))))
 
+    # the two directed TLC runs of step 2 do not depend on step 1: start them now, collect them below
+    from concurrent.futures import ThreadPoolExecutor
+    pool_ = ThreadPoolExecutor(2)
+    fut_a = pool_.submit(L.tlc.run, "Simplify", "Simplify_directed_asbuilt.cfg", workers=1, deadlock=False, timeout=1800)
+    fut_i = pool_.submit(L.tlc.run, "Simplify", "Simplify_directed_intended.cfg", workers=max(1, workers // 2),
+                         deadlock=False, timeout=1800)
     # ---- 1. programs: the base family (+ seeded draws from the whole blueprint space in the thorough tier)
     res = L.tlc_programs(ctx, "Simplify_progs.cfg", what="programs of the base family (PROG lines)")
     progs = res.tr("PROG")
@@ -200,18 +206,19 @@ def run(ctx, prop):
     bykey = {bpkey(p["bp"]): i for i, p in enumerate(progs)}
 
     # ---- 2. as-built spec at the directed option sets: every predicted violation is replayed on the code
-    ra = L.tlc.run("Simplify", "Simplify_directed_asbuilt.cfg", workers=1, deadlock=False, timeout=1800)
+    ra = fut_a.result()
     ctx.add_tlc(ra, "as-built switches, directed family: expected counterexamples (CEX lines)")
     cex = ra.tr("CEX")
     if not cex:
         raise MachineryError("vacuous: the as-built spec produced no counterexample")
-    ri = L.tlc.run("Simplify", "Simplify_directed_intended.cfg", workers=workers, deadlock=False, timeout=1800)
+    ri = fut_i.result()
+    pool_.shutdown()
     ctx.add_tlc(ri, "intended switches, directed family x directed option sets: all properties")
     if ri.violated:
         raise MachineryError("spec Simplify (intended) violates %s:\n%s" % (ri.violated, ri.cex[:3000]))
 
     # ---- 3. (blueprint, option set) pairs
-    per_bp = 12 if thorough else 5
+    per_bp = 12 if thorough else 4
     pool = option_pool(rng, 400 if thorough else 120)
     pairs = {}
     for i, p in enumerate(progs):
@@ -301,7 +308,7 @@ def run(ctx, prop):
     # ---- 4b. conformance of the operational spec itself (auxiliary state -> model drift only): for a sample of
     #          the pairs TLC prints every admissible final state; the observed final name sets / equation count
     #          must be one of them
-    nfin = int(os.environ.get("VERIF_SIMPLIFY_FIN", "150" if thorough else "40"))
+    nfin = int(os.environ.get("VERIF_SIMPLIFY_FIN", "150" if thorough else "30"))
     step = max(1, len(groups) // nfin)
     sample = [g for k, g in enumerate(groups) if k % step == 0][:nfin]
     sample = [dict(g, optsets=g["optsets"][:6]) for g in sample]
